@@ -345,63 +345,96 @@ func c16Siblings(c *Ctx) {
 	c.check(same, rule, "ParseFromSpec~ParseTo/same-pieces", w.pos(b.Pos()), "From and To headers are cut into the same pieces", "ParseFromSpec and ParseTo hand different pieces of the same header text to the address / parameter decoders: the same endpoint yields a different address (or no dialog) depending on whether it appears in From or in To, so the two directions of a dialog get different keys", facts...)
 }
 
-// c16URISplitOrder: the SIP URI decoder removes the headers (from the first '?') and then the parameters (from the
-// first ';') before it looks for the '@' that ends the user part, each at its first occurrence: otherwise a parameter
-// or header value containing '@', ';' or ':' is taken for user, host or port, and the parameters the dialog key must
-// ignore end up inside the address.
+// c16URISplitOrder: the SIP URI decoder first cuts the user part off at the first '@' (RFC 3261 lets the user part
+// contain ';' and '?'), then, in what follows, the headers at the first '?' and the parameters at the first ';'. Each
+// search takes the first occurrence. Any other order or a last-occurrence search makes text of one component end up in
+// another: parameters the dialog key must ignore inside the user or host, or the host inside a parameter.
 func c16URISplitOrder(c *Ctx, rule string) {
 	w := c.w
 	f := c.fn(rule, "ParseSipURI")
 	if f == nil {
 		return
 	}
-	find := func(b byte) (*ssa.Call, bool) {
-		var out *ssa.Call
-		first := true
+	// a split of a text at the first occurrence of a one-byte separator, spelled Index*+slicing or strings.Cut
+	type split struct {
+		call  *ssa.Call
+		cut   bool
+		first bool
+	}
+	find := func(b byte) *split {
+		var out *split
 		n := 0
 		for _, cs := range w.callsIn(f) {
-			if !indexFamily[cs.Name] {
-				continue
-			}
 			call, ok := cs.In.(*ssa.Call)
 			if !ok || len(call.Call.Args) < 2 {
 				continue
 			}
-			if bb, isB := constByte(call.Call.Args[1]); isB && bb == b {
-				out = call
+			bb, isB := constByte(call.Call.Args[1])
+			if !isB || bb != b {
+				continue
+			}
+			switch {
+			case indexFamily[cs.Name]:
+				out = &split{call: call, first: !strings.Contains(cs.Name, "Last")}
 				n++
-				first = !strings.Contains(cs.Name, "Last")
+			case cs.Name == "strings.Cut":
+				out = &split{call: call, cut: true, first: true}
+				n++
 			}
 		}
 		if n != 1 {
-			return nil, false
+			return nil
 		}
-		return out, first
+		return out
 	}
-	q, qf := find('?')
-	sc, sf := find(';')
-	at, af := find('@')
+	q, sc, at := find('?'), find(';'), find('@')
 	if q == nil || sc == nil || at == nil {
 		c.bad(rule, "ParseSipURI/split-order", w.pos(f.Pos()), "ParseSipURI does not search each of '?', ';' and '@' exactly once")
 		return
 	}
-	// text is `prev` cut at the position found by k (or prev itself when k found nothing)
-	cutBy := func(text ssa.Value, k *ssa.Call) bool {
+	src := func(k *split) ssa.Value { return strip(k.call.Call.Args[0]) }
+	isBefore := func(k *split, v ssa.Value) bool {
+		v = strip(v)
+		if k.cut {
+			return isResultOf(v, k.call, 0)
+		}
+		sl, ok := v.(*ssa.Slice)
+		return ok && strip(sl.X) == src(k) && isZeroOrNil(sl.Low) && sl.High != nil && strip(sl.High) == ssa.Value(k.call)
+	}
+	isAfter := func(k *split, v ssa.Value) bool {
+		v = strip(v)
+		if k.cut {
+			return isResultOf(v, k.call, 1)
+		}
+		sl, ok := v.(*ssa.Slice)
+		return ok && strip(sl.X) == src(k) && sl.High == nil && sl.Low != nil && isPlusOne(sl.Low, k.call)
+	}
+	// text is the text k searched, with one side of the split removed when k found its separator
+	derived := func(text ssa.Value, k *split, part func(*split, ssa.Value) bool) bool {
 		ph, ok := strip(text).(*ssa.Phi)
 		if !ok || len(ph.Edges) != 2 {
 			return false
 		}
 		for i := 0; i < 2; i++ {
-			sl, ok := strip(ph.Edges[i]).(*ssa.Slice)
-			if !ok {
-				continue
-			}
-			if strip(sl.X) == strip(ph.Edges[1-i]) && isZeroOrNil(sl.Low) && sl.High != nil && strip(sl.High) == ssa.Value(k) && strip(k.Call.Args[0]) == strip(sl.X) {
+			if part(k, ph.Edges[i]) && strip(ph.Edges[1-i]) == src(k) {
 				return true
 			}
 		}
 		return false
 	}
-	good := qf && sf && af && cutBy(sc.Call.Args[0], q) && cutBy(at.Call.Args[0], sc)
-	c.check(good, rule, "ParseSipURI/split-order", w.ipos(at), "headers, then parameters are cut off at their first delimiter before the user part is looked for", "ParseSipURI does not cut the URI at the first '?' and then at the first ';' before searching the first '@': a parameter or header value containing '@' or ':' is decoded as user/host, and URI parameters leak into the address the dialog key is built from")
+	// the text searched for '@' is the URI after its scheme, not yet cut anywhere
+	uncut := func(text ssa.Value) bool {
+		for _, lf := range phiLeaves(text) {
+			sl, ok := lf.(*ssa.Slice)
+			if !ok || !isParam(f, sl.X, 0) || sl.High != nil {
+				return false
+			}
+			if k, isK := constInt(sl.Low); !isK || (k != 4 && k != 5) {
+				return false
+			}
+		}
+		return true
+	}
+	good := q.first && sc.first && at.first && uncut(src(at)) && derived(src(q), at, isAfter) && derived(src(sc), q, isBefore)
+	c.check(good, rule, "ParseSipURI/split-order", w.ipos(at.call), "user part cut at the first '@', then headers at the first '?', then parameters at the first ';'", "ParseSipURI does not cut the user part off at the first '@' of the URI and then, in the rest, the headers at the first '?' and the parameters at the first ';': text of one component is decoded as another (the host inside a parameter value, parameters inside user or host), and what the dialog key must ignore leaks into the address it is built from")
 }
